@@ -97,6 +97,7 @@ class ScanDomain(Domain):
         self.depth = depth
         self.par = _parity_nodes([fi.node])
         self.returns = []
+        self._handled = set()
 
     # ------------------------------------------------------------ values
     def ev(self, e, st):
@@ -199,9 +200,44 @@ class ScanDomain(Domain):
         if id(test) in self.par:
             self.res.parity[(st.known, id(test))] = (
                 st.known, self.par[id(test)], test)
+        hb = self._helper_test(test, st)
+        if hb is not None:
+            return hb
         self.note(test, st)
         r = self._branch(test, st)
         return r if r is not None else [(True, st), (False, st)]
+
+    def _helper_test(self, test, st):
+        """`helper(text, pos) is [not] None` / `helper(text, pos)` as a
+        test: one branch per way the helper returns"""
+        call, want_none = None, None
+        if isinstance(test, ast.Compare) and len(test.ops) == 1 and \
+                isinstance(test.ops[0], (ast.Is, ast.IsNot)) and \
+                isinstance(test.comparators[0], ast.Constant) and \
+                test.comparators[0].value is None:
+            call, want_none = test.left, isinstance(test.ops[0], ast.Is)
+        elif isinstance(test, ast.Call):
+            call, want_none = test, False
+        h = self.helper_of(call) if call is not None else None
+        if h is None:
+            return None
+        self._handled.add(id(call))
+        out = []
+        for val, known, endv in self.inter(h, call, st):
+            ns = st.copy()
+            if known.startswith(st.known):
+                ns.known = known
+            if endv != UNK:
+                ns.env['<end>'] = endv
+            if val == ('const', None):
+                truth = [want_none]
+            elif val == ('selfobj',):
+                truth = [not want_none]
+            else:
+                truth = [True, False]
+            for t in truth:
+                out.append((t, ns))
+        return out or None
 
     def _lits(self, e):
         if isinstance(e, ast.Constant) and isinstance(e.value, str):
@@ -213,6 +249,19 @@ class ScanDomain(Domain):
         return None
 
     def _branch(self, test, st):
+        if isinstance(test, ast.Compare) and len(test.ops) == 1 and \
+                isinstance(test.ops[0], (ast.Is, ast.IsNot)) and \
+                isinstance(test.comparators[0], ast.Constant) and \
+                test.comparators[0].value is None:
+            a = self.ev(test.left, st)
+            isnone = None
+            if a == ('selfobj',):
+                isnone = False
+            elif a == ('const', None):
+                isnone = True
+            if isnone is None:
+                return None
+            return [(isnone == isinstance(test.ops[0], ast.Is), st)]
         if isinstance(test, ast.Compare) and len(test.ops) == 1:
             op = test.ops[0]
             a = self.ev(test.left, st)
@@ -311,10 +360,9 @@ class ScanDomain(Domain):
                 c.args[0].id == self.text:
             p = self.ev(c.args[1], st)
             # a helper of the same module: interpret it with the bindings
-            tgt = [t[1] for t in self.model.resolve_callee(f, self.fi)
-                   if t[0] == 'func' and t[1].module is self.fi.module]
-            if tgt and self.depth < 2:
-                self.inter(tgt[0], c, st)
+            if self.helper_of(c) is not None:
+                if id(c) not in self._handled:
+                    self.inter(self.helper_of(c), c, st)
                 return
             if p[0] == 'off':
                 self.event(self.regex_method(f) or 'call', c, p[1], st)
@@ -350,8 +398,11 @@ class ScanDomain(Domain):
         return None
 
     def inter(self, callee, call, st):
+        """Interpret a helper of the same module with the caller's
+        bindings.  -> list of (returned value, known prefix, end marker)"""
         params = callee.params()
-        if params and params[0] == 'self':
+        is_method = bool(params) and params[0] == 'self'
+        if is_method:
             params = params[1:]
         env = {}
         for p, a in zip(params, call.args):
@@ -360,17 +411,58 @@ class ScanDomain(Domain):
             if kw.arg:
                 env[kw.arg] = self.ev(kw.value, st)
         if not params:
-            return
+            return []
+        if is_method:
+            env['self'] = ('selfobj',)
         tpar = params[0]
         for p, a in zip(params, call.args):
             if isinstance(a, ast.Name) and a.id == self.text:
                 tpar = p
         sub = ScanDomain(self.model, callee, tpar, None, self.res,
                          self.depth + 1)
-        Interp(sub, 4000).run(callee.node, SS(env, st.known))
+        outs = Interp(sub, 4000).run(callee.node, SS(env, st.known))
+        rets = list(sub.returns)
+        for o in outs:
+            if o.kind == NORMAL:
+                rets.append((('const', None), o.state.known,
+                             o.state.env.get('<end>', UNK)))
+        return rets
+
+    def helper_of(self, e):
+        """FuncInfo when e is a call of a same-module helper that is
+        handed the text"""
+        if not (isinstance(e, ast.Call) and len(e.args) >= 2 and any(
+                isinstance(a, ast.Name) and a.id == self.text
+                for a in e.args)) or self.depth >= 2:
+            return None
+        if isinstance(e.func, ast.Attribute) and isinstance(
+                e.func.value, ast.Name) and e.func.value.id == self.text:
+            return None
+        tgt = [t[1] for t in self.model.resolve_callee(e.func, self.fi)
+               if t[0] == 'func' and t[1].module is self.fi.module]
+        return tgt[0] if tgt else None
 
     # --------------------------------------------------------- statements
     def simple(self, stmt, st):
+        if isinstance(stmt, ast.Assign) and len(stmt.targets) == 1 and \
+                isinstance(stmt.targets[0], ast.Name) and \
+                self.helper_of(stmt.value) is not None:
+            # a helper that gets the text: continue once per way it returns
+            self._handled.add(id(stmt.value))
+            outs = []
+            seen = set()
+            for val, known, endv in self.inter(
+                    self.helper_of(stmt.value), stmt.value, st):
+                ns = st.copy()
+                if known.startswith(st.known):
+                    ns.known = known
+                ns.env[stmt.targets[0].id] = val
+                if endv != UNK:
+                    ns.env['<end>'] = endv
+                if ns.key() not in seen:
+                    seen.add(ns.key())
+                    outs.append(Outcome(NORMAL, ns))
+            return outs or [Outcome(NORMAL, st)]
         self.note(stmt, st)
         ns = st
         if isinstance(stmt, ast.Assign):
@@ -411,12 +503,27 @@ class ScanDomain(Domain):
         return ns
 
     def on_return(self, node, st):
+        val = ('const', None)
+        rets = [(None, st.known, st.env.get('<end>', UNK))]
         if node.value is not None:
-            self.note(node.value, st)
-            if self.depth == 0 and isinstance(node.value, ast.Name) and \
-                    node.value.id == 'self':
-                self.res.success.add(
-                    (st.known, st.env.get('<end>', UNK)))
+            h = self.helper_of(node.value)
+            if h is not None:
+                self._handled.add(id(node.value))
+                rets = [(v, k if k.startswith(st.known) else st.known, e)
+                        for v, k, e in self.inter(h, node.value, st)]
+            else:
+                self.note(node.value, st)
+                val = self.ev(node.value, st)
+                if isinstance(node.value, ast.Name) and \
+                        node.value.id == 'self':
+                    val = ('selfobj',)
+                rets = [(val, st.known, st.env.get('<end>', UNK))]
+        else:
+            rets = [(val, st.known, st.env.get('<end>', UNK))]
+        for v, known, endv in rets:
+            if v == ('selfobj',) and self.depth == 0:
+                self.res.success.add((known, endv))
+            self.returns.append((v, known, endv))
         return [], st
 
 
